@@ -72,6 +72,10 @@ def load_known():
     return json.load(open(path))["findings"]
 
 
+def open_known_for(prop):
+    return [k for k in load_known() if k["status"] == "open" and prop in k.get("properties", [k["property"]])]
+
+
 class Ctx:
     """Per-shard context."""
     def __init__(self, prop, tier, seed, shard, nshards, work):
@@ -91,7 +95,7 @@ class Ctx:
         self.current_case_file = os.path.join(work, "current_case.json")
         from . import known
         self.known = known
-        self.open_known = [k for k in load_known() if k["property"] == prop and k["status"] == "open"]
+        self.open_known = open_known_for(prop)
 
     # ---- scratch
     def tmp(self):
@@ -317,8 +321,7 @@ def run_property(prop, tier, seed):
                     case = json.load(open(cur))
                     f = {"kind": f"interpreter-crash-signal{-rc}", "detail": signal.Signals(-rc).name, "case": case}
                     from . import known
-                    kid = known.match([k for k in load_known() if k["property"] == prop and k["status"] == "open"],
-                                      prop, case, Violation(f["kind"], f["detail"]))
+                    kid = known.match(open_known_for(prop), prop, case, Violation(f["kind"], f["detail"]))
                     if kid is None:
                         failures.append(f)
                     else:
